@@ -88,7 +88,11 @@ func checkDataset(w *DatasetWorld) (obs []uint64, fails []mc.Fail) {
 		xs := append([]float64{}, vals...)
 		sort.Float64s(xs)
 		fail := func(clause, format string, a ...any) {
-			fails = append(fails, mc.Fail{Clause: clause, Detail: fmt.Sprintf("dataset %s, added %v: ", slotName(s), vals) + fmt.Sprintf(format, a...)})
+			shown := fmt.Sprint(vals)
+			if len(vals) > 40 {
+				shown = fmt.Sprintf("%v ... (%d values)", vals[:20], len(vals))
+			}
+			fails = append(fails, mc.Fail{Clause: clause, Detail: fmt.Sprintf("dataset %s, added %s: ", slotName(s), shown) + fmt.Sprintf(format, a...)})
 		}
 		if d.Count != float64(n) {
 			fail("C20.count", "Count=%v after %d additions", d.Count, n)
@@ -107,7 +111,11 @@ func checkDataset(w *DatasetWorld) (obs []uint64, fails []mc.Fail) {
 			okLo := lo == xs[elo] || (flo >= 0 && flo < int64(n) && lo == xs[flo])
 			okUp := up == xs[ehi] || (fhi >= 0 && fhi < int64(n) && up == xs[fhi])
 			if !okLo || !okUp || math.Float64bits(qq) != math.Float64bits(lo) {
-				fail("C20.order-statistic", "q=%v: lower=%v upper=%v quantile=%v; sorted values %v, ranks %d and %d", q, lo, up, qq, xs, elo, ehi)
+				sx := fmt.Sprint(xs)
+				if n > 40 {
+					sx = fmt.Sprintf("x[%d]=%v x[%d]=%v of %d sorted values", elo, xs[elo], ehi, xs[ehi], n)
+				}
+				fail("C20.order-statistic", "q=%v: lower=%v upper=%v quantile=%v; sorted values %s, ranks %d and %d", q, lo, up, qq, sx, elo, ehi)
 				break
 			}
 		}
@@ -196,9 +204,20 @@ func datasetScenario(tier string, long bool) *mc.Scenario[*DatasetWorld] {
 		if tier == "thorough" {
 			sc.Depth = 3
 		}
+		// many distinct values arriving in descending order (size thresholds of a
+		// sorting strategy: a little above a power of two, not a multiple of 2, 4 or 8)
+		desc := func(s int, n int) mc.Op[*DatasetWorld] {
+			return dsOp(fmt.Sprintf("%s.Add(k) for k = %d down to 1", slotName(s), n), 1<<uint(s), func(w *DatasetWorld) {
+				for i := n; i >= 1; i-- {
+					w.D[s].Add(float64(i))
+					w.M[s] = append(w.M[s], float64(i))
+				}
+			})
+		}
 		sc.Seeds = []mc.Seed[*DatasetWorld]{
 			{Name: "512 x 0.1", Ops: []mc.Op[*DatasetWorld]{many(0, 0.1, 512)}},
 			{Name: "300 x 7.3 and 300 x -7.3", Ops: []mc.Op[*DatasetWorld]{many(0, 7.3, 300), many(1, -7.3, 300)}},
+			{Name: "8195 distinct values, descending", Ops: []mc.Op[*DatasetWorld]{desc(0, 8195)}},
 		}
 	}
 	sc.Check = checkDataset
